@@ -4,6 +4,7 @@ useractions paths that call them on RenameColumn / RenameTable)."""
 import ast
 import json
 import os
+import re
 import types
 import warnings
 
@@ -159,7 +160,8 @@ RENAME_FIXED = [
   "'New' in choice.city and $name == rec.name + rec.choice.city or choice.rec.city != $name2",
   'choice + $name == choice.city or rec.address > 2', "+ 'New' in choice.city and $name == rec.name",
   'rec.A ==', 'rec.A if', 'return 1', 'x = 1', 'rec.A.A.A', 'rec . A == 1', '"$A" == rec.A', 'rec.A==$A==1',
-  'user.Cust.A == rec.B and user.Cust.B', 'f(rec.A, k=rec.B)', 'rec.f(rec.A, k=$B).A', '(rec).A + (rec.A).B',
+  'user.Cust.A == rec.B and user.Cust.B', 'user.School.Name == rec.Name or user.Cust.Name', 'user.Cust.A.B + user.user.A',
+  'user.Office.City == rec.A', 'f(rec.A, k=rec.B)', 'rec.f(rec.A, k=$B).A', '(rec).A + (rec.A).B',
   'rec.\\\nA', '(rec.\n  A)', 'newRec.A is None', 'oldRec.A != rec.A', 'user.rec.A', 'rec.user.A', 'choice.A.B',
   '$A', '$A.B', '$rec.A', 'rec.rec', 'user.user.user', 'rec.A # rec.A $A', 'rec.A and "rec.A"', 'rec.é == $é',
   '[rec.A, (rec.B, $A)]', 'not $A', '-rec.A', 'rec.A[0]', 'lambda: rec.A', 'rec.A < rec.B < rec.C', 'True.A', 'None.rec.A',
@@ -168,7 +170,8 @@ RENAME_FIXED = [
 
 
 def gen_formulas(ctx):
-  g = predgen.Gen(ctx.rng, cols=['A', 'B', 'AA', 'Name', 'rec', 'user', 'choice', 'Cust', 'School', 'é'])
+  g = predgen.Gen(ctx.rng, cols=['A', 'B', 'AA', 'Name', 'rec', 'user', 'choice', 'Cust', 'School', 'é'],
+                  user_attrs=['Cust', 'School', 'user'])
   out = [(f, 'fixed') for f in RENAME_FIXED]
   for _ in range(ctx.n(260, 4000)):
     out.append((predgen.finish(g.formula())[0], 'valid'))
@@ -220,12 +223,21 @@ def stub_acl(rng, formula, renames):
   by_id = {r.id: r for r in resources}
   attrs = {}
   rules = []
-  for name in rng.sample(['Cust', 'School', 'user'], rng.randint(0, 2)):
-    info = {'name': name, 'charId': 'Email', 'tableId': rng.choice(TABLES), 'lookupColId': rng.choice(COLS)}
+  names = rng.sample(['Cust', 'School', 'user'], rng.randint(0, 2))
+  for a in stub_acl.want_attrs:              # attributes the formula mentions as user.<Attr>.<Col>
+    if a not in names and rng.random() < 0.85:
+      names.append(a)
+  for name in names:
+    info = {'name': name, 'charId': 'Email', 'tableId': stub_acl.attr_table.get(name) or rng.choice(TABLES),
+            'lookupColId': rng.choice(COLS)}
     attrs[name] = info
     rules.append(types.SimpleNamespace(id=10 + len(rules), resource=1, aclFormula='', userAttributes=json.dumps(info)))
   frule = types.SimpleNamespace(id=50, resource=2, aclFormula=formula, userAttributes='')
-  rules.insert(rng.randint(0, len(rules)), frule)
+  # the formula rule before, between or after the rules that define the attributes (row-id order = list order)
+  rules.insert(rng.choice([0, 0, len(rules), rng.randint(0, len(rules))]), frule)
+  for i, r in enumerate(rules):
+    r.id = 10 + i
+  stub_acl.order = 'formula-rule-first' if rules[0] is frule and len(rules) > 1 else 'attribute-rule-first'
   ua = StubUA(aclResources=types.SimpleNamespace(all=resources, table=types.SimpleNamespace(get_record=by_id.get)),
               aclRules=types.SimpleNamespace(all=rules))
   term = '(RAcl %s (Some %s) %s)' % (coq_renames(renames), S(rule_table), core.coq_list(
@@ -253,6 +265,10 @@ def stub_acl(rng, formula, renames):
       lookcases.append('(%s, (Some %s), (Some %s), %s)' % (coq_renames(renames), S(info['tableId']), S(info['lookupColId']),
                                                            core.optlit(look.get(r.id), S)))
   return term, ('text', new), colcases, lookcases, parsed
+
+
+stub_acl.want_attrs = []
+stub_acl.attr_table = {}
 
 
 def stub_dc(rng, formula, renames):
@@ -347,7 +363,15 @@ def correspond(ctx):
       if mode == 'acl':
         if not formula:
           continue
+        uac = [e for e in (ents or []) if e.type == 'userAttrCol']
+        stub_acl.want_attrs = sorted(set(e.extra for e in uac))
+        stub_acl.attr_table = {a: rng.choice(TABLES) for a in stub_acl.want_attrs}
+        if uac and rng.random() < 0.8:       # rename the column in the attribute's lookup table
+          e0 = rng.choice(uac)
+          renames[(stub_acl.attr_table[e0.extra], e0.name)] = rng.choice(NEW_IDS)
         term, result, cc, lc, parsed = stub_acl(rng, formula, renames)
+        if uac:
+          ctx.bump('stub-acl:user-attr-col:' + stub_acl.order)
         colcases.extend(cc)
         lookcases.extend(lc)
         item = stub_acl.item
@@ -389,7 +413,9 @@ def correspond(ctx):
 
 E2E_FORMULAS = [
   'rec.A == 1', '$A == "x" and newRec.B != rec.A', 'user.Email == rec.A  # $A memo', 'rec.A in ["A", "rec.A"] or rec.AA',
-  'user.Cust.A == rec.B and user.Cust.B', 'rec.A.A.A', 'not rec.B or (rec.A + rec.AA) > 2', 'rec . A == 1', '"$A" == rec.A',
+  'user.Cust.A == rec.B and user.Cust.B', 'user.Sch.AA == rec.A', 'user.Sch.N > 0 and user.Cust.Name != $A',
+  'user.Oth.B in rec.R or user.Cust.A', 'user . Cust . Name == user.Sch.A  # user.Cust.Name', 'rec.A.A.A',
+  'not rec.B or (rec.A + rec.AA) > 2', 'rec . A == 1', '"$A" == rec.A',
   'user.Other.A == 1', 'A == 1 and rec.A', 'f(rec.A, k=rec.B)', 'newRec.A is None', 'choice.A == rec.A',
   'choice.B == $AA and rec.B', 'choice.Name in rec.R', 'oldRec.A != rec.A and $N > 0', 'rec.f(rec.A, k=$B).A',
   '( $A not in rec.AA or $AA + $B == rec.A)', '( rec.A !=  # ünîcødé comment\n  user.Cust.Name)',
@@ -415,15 +441,31 @@ def gen_spec(rng, g):
     kw['raw'] = pred_e2e.impl_parse(f)[0] != 'ok'
     return kw
 
+  # user attributes: several, with lookup tables that may differ from the table of the rules that use them
+  attrs = [{'name': n, 'tableId': t, 'lookupColId': c, 'charId': 'Email'}
+           for n, t, c in rng.sample([('Cust', 'C', 'A'), ('Sch', 'T', 'AA'), ('Oth', 'C', 'Name')], rng.randint(1, 3))]
+  rules = [entry(formula(True), table=rng.choice(['T', 'T', 'C'])) for _ in range(rng.randint(1, 4))]
+  rules = [r for r in rules if r['formula']] + [{'attr': a} for a in attrs]
+  # row-id order of the rules is the list order: attribute rules before, between and after the rules that use them
+  k = rng.random()
+  if k < 0.35:
+    rules.sort(key=lambda r: 'attr' in r)            # formula rules first
+  elif k < 0.5:
+    rules.sort(key=lambda r: 'attr' not in r)        # attribute rules first
+  else:
+    rng.shuffle(rules)
   spec = {
     'colids': {'T': rng.choice(['*', 'A', 'A,AA', 'B,A,N', 'AA,Ch']), 'C': rng.choice(['*', 'A', 'A,B', 'Name,A'])},
-    'acl_rules': [entry(formula(True), table=rng.choice(['T', 'T', 'C'])) for _ in range(rng.randint(1, 4))],
+    'acl_rules': rules,
     'dcs': [entry(formula(True), col=c) for c in rng.sample(['B', 'R', 'Ch', 'N'], rng.randint(0, 3))],
     'triggers': [entry(formula(True), mode=rng.choice(['text', 'config'])) for _ in range(rng.randint(0, 2))],
     'actions': [],
   }
-  spec['acl_rules'] = [r for r in spec['acl_rules'] if r['formula']]
   spec['triggers'] = [t for t in spec['triggers'] if t['formula']]
+  # references user.<Attr>.<Col> present in the rules: renames in the attribute's lookup table are likely
+  attr_table = {a['name']: a['tableId'] for a in attrs}
+  uses = [(attr_table[m.group(1)], m.group(2)) for r in rules if 'formula' in r
+          for m in re.finditer(r'user\s*\.\s*(\w+)\s*\.\s*(\w+)', r['formula']) if m.group(1) in attr_table]
   cols = {'T': [c for c, _ in pred_e2e.T_COLS], 'C': [c for c, _ in pred_e2e.C_COLS]}
   tname = {'T': 'T', 'C': 'C'}
   for _ in range(rng.randint(1, 3)):
@@ -431,6 +473,9 @@ def gen_spec(rng, g):
     t = rng.choice(['T', 'T', 'C'])
     if k < 0.75 and cols[t]:
       old = rng.choice(cols[t])
+      hits = [(ut, uc) for ut, uc in uses if uc in cols[ut]]
+      if hits and rng.random() < 0.5:
+        t, old = rng.choice(hits)
       new = rng.choice(E2E_NEW)
       spec['actions'].append(['RenameColumn', tname[t], old, new])
       cols[t].remove(old)          # the new id is whatever the engine makes of `new`; do not reuse the column
@@ -451,6 +496,13 @@ REGRESSION_SPECS = [
   {'colids': {'T': 'A,AA', 'C': '*'}, 'acl_rules': [{'table': 'T', 'formula': 'rec.AA == 1', 'raw': False}],
    'dcs': [{'col': 'B', 'formula': 'choice.A ==', 'raw': True}],
    'triggers': [{'mode': 'text', 'formula': '$AA $B', 'raw': True}], 'actions': [['RenameColumn', 'T', 'AA', 'X']]},
+  # a rule that uses a user attribute stored BEFORE (lower row id than) the rule that defines the attribute
+  {'colids': {'T': 'A', 'C': '*'},
+   'acl_rules': [{'table': 'T', 'formula': 'user.Cust.Name == rec.A and user.Sch.AA', 'raw': False},
+                 {'attr': {'name': 'Cust', 'tableId': 'C', 'lookupColId': 'A', 'charId': 'Email'}},
+                 {'attr': {'name': 'Sch', 'tableId': 'T', 'lookupColId': 'AA', 'charId': 'Email'}}],
+   'dcs': [], 'triggers': [], 'actions': [['RenameColumn', 'C', 'Name', 'Title'], ['RenameTable', 'C', 'Customers'],
+                                          ['RenameColumn', 'T', 'AA', 'X']]},
 ]
 
 
@@ -461,7 +513,8 @@ def search(ctx):
     ctx.count(json.dumps(spec, sort_keys=True), nontrivial=True, kind='e2e:regression:' + '+'.join(outcomes))
     for kind, what in bad[:3]:
       ctx.violation(kind, what, {'spec': spec, 'kind': kind})
-  g = predgen.Gen(ctx.rng, cols=['A', 'AA', 'B', 'Name', 'N', 'R', 'Cust'], unicode_ok=True)
+  g = predgen.Gen(ctx.rng, cols=['A', 'AA', 'B', 'Name', 'N', 'R', 'Cust'], unicode_ok=True,
+                  user_attrs=['Cust', 'Sch', 'Oth'])
   for _ in range(ctx.n(120, 600)):
     spec = gen_spec(ctx.rng, g)
     if not spec['actions']:
